@@ -80,13 +80,15 @@ const (
 	stPause
 	stResume
 	stHandshake
+	stWait
 )
 
 type CStep struct {
 	Kind    int
 	Data    []byte
-	Reqs    []*Req // requests whose last byte is in this segment
-	WaitAll bool   // only when every earlier request has been answered
+	Reqs    []*Req        // requests whose last byte is in this segment
+	WaitAll bool          // only when every earlier request has been answered
+	Dur     time.Duration // stWait: the client lets this much time pass
 }
 
 type Client struct {
@@ -671,6 +673,10 @@ func (c *Core) noteStep(s *Sim, cl *Client, perform bool) {
 	case stResume:
 		cl.paused = false
 		c.OnDelivered(s, cl.ep)
+	case stWait:
+		s.Logf("%s lets %v pass", cl.name(), st.Dur)
+		s.Fault("F11-client-waits-mid-frame")
+		s.Sleep(st.Dur)
 	}
 	if cl.pc == len(cl.Steps) {
 		cl.allSent = true
